@@ -414,7 +414,7 @@ def generate(front: Front):
                 index.append({"def": name, "function": qual, "source_hash": info.source_hash(), "lines": list(info.span)})
             dropped_all[qual] = dropped
         except (NotTranslatable, KeyError, IndexError, AttributeError, TypeError) as e:
-            errors.append({"function": qual, "label": label, "error": f"{type(e).__name__}: {e}"})
+            errors.append({"function": qual, "label": label, "error": f"{type(e).__name__}: {e}", "defs": [o[0] for o in outputs]})
 
     V = lambda n: var(n, "v")   # noqa: E731
     S = lambda n: var(n, "s")   # noqa: E731
@@ -450,16 +450,23 @@ def generate(front: Front):
     LU = [("lower", "s"), ("upper", "s")]
 
     def init_attrs(qual, env0, names):
+        """defining expressions of the derived attributes __init__ computes from the given ones (`names` must translate; any *other*
+        attribute assignment is taken along when it translates, so that a cached value introduced later is available to the methods)"""
         info = fn(qual)
-        tr = Tr(front, info.module, info.cls, env0, True, [])
+        tr = Tr(front, info.module, info.cls, dict(env0), True, [])
         for st in info.node.body:
-            if isinstance(st, ast.Assign) and isinstance(st.targets[0], ast.Attribute) and st.targets[0].attr in names:
+            if isinstance(st, ast.Assign) and len(st.targets) == 1 and isinstance(st.targets[0], ast.Attribute) \
+                    and isinstance(st.targets[0].value, ast.Name) and st.targets[0].value.id == "self":
+                attr = st.targets[0].attr
+                if ("self." + attr) in env0:
+                    continue                      # given (lower, upper, ...): the symbolic parameter stands for the stored value
                 try:
-                    tr.assign(st.targets[0], tr.e(st.value))
-                except NotTranslatable:
-                    if st.targets[0].attr in ("lower", "upper"):
-                        continue
-                    raise
+                    v = tr.e(st.value)
+                    tr.assign(st.targets[0], v)
+                    tr.env["self." + attr] = v
+                except (NotTranslatable, KeyError, IndexError, AttributeError, TypeError):
+                    if attr in names:
+                        raise
         return {("self." + k): v for k, v in tr.out.items()}
 
     try:
